@@ -62,8 +62,42 @@ FakeTimezone.utc = FakeTimezone(FakeTimedelta(0))
 
 
 class FakeDatetime:
-    def __init__(self, world, t, micro=0, off=None):
-        self.world, self.t, self.micro, self.off = world, t, micro, off
+    def __init__(self, world, t, micro=0, off=None, fold_known=True):
+        self.world, self._t, self.micro, self.off = world, t, micro, off
+        # a naive local wall-clock value inside the hour that is repeated when daylight saving ends is ambiguous; Python
+        # disambiguates it with `fold`, which fromtimestamp() sets correctly and datetime arithmetic resets to 0 (first occurrence)
+        self.fold_known = fold_known
+
+    @property
+    def t(self):
+        """the instant this object denotes when it is interpreted in the local zone"""
+        if self.off is not None or self.fold_known:
+            return self._t
+        z = self.world.zone
+        second = z.second_occurrence(self._t)
+        if second is False:
+            return self._t
+        shift = z.dst - z.std
+        if second is True:
+            return self._t - shift
+        return SymInt(z3.If(second.z, pse._z(self._t) - pse._z(shift), pse._z(self._t)))
+
+    def _arith(self, td, sign):
+        if isinstance(td, _dt.timedelta):
+            td = FakeTimedelta(seconds=td.days * 86400 + td.seconds, microseconds=td.microseconds)
+        if not isinstance(td, FakeTimedelta):
+            return NotImplemented
+        return FakeDatetime(self.world, self._t + sign * td.secs, self.micro + sign * td.micro, self.off, fold_known=(self.off is not None))
+
+    def __add__(self, td):
+        return self._arith(td, 1)
+
+    __radd__ = __add__
+
+    def __sub__(self, td):
+        if isinstance(td, FakeDatetime):
+            return FakeTimedelta(seconds=self.t - td.t, microseconds=self.micro - td.micro)
+        return self._arith(td, -1)
 
     # ---- constructors (bound through FakeDatetimeClass)
     def replace(self, microsecond=None, tzinfo="keep", **kw):
@@ -71,7 +105,7 @@ class FakeDatetime:
             raise pse.HarnessError("FakeDatetime.replace(%s) not modelled" % ",".join(kw))
         micro = self.micro if microsecond is None else microsecond
         if tzinfo == "keep":
-            return FakeDatetime(self.world, self.t, micro, self.off)
+            return FakeDatetime(self.world, self._t, micro, self.off, self.fold_known)
         wall_off = self.world.zone.off(self.t) if self.off is None else self.off
         if tzinfo is None:
             # drop tzinfo, keep the wall clock: read as local wall time again (only exact when offsets agree)
